@@ -194,6 +194,7 @@ def build_crates(res, wsdir, modules, codedir, ncrates=8, macro_items=None):
         if os.path.exists(cand):
             shutil.copyfile(cand, os.path.join(wsdir, "Cargo.lock"))
             break
+    guard_target(GEN_TARGET, wsdir, REPO_PACKAGES)
     cmd = ["cargo", "check", "--offline", "--workspace", "--keep-going", "--message-format=json", "--target-dir", GEN_TARGET, "-j", "12"]
     p = subprocess.run(cmd, cwd=wsdir, env=cargo_env(), stdout=subprocess.PIPE, stderr=subprocess.PIPE, text=True)
     res.cmds.append(" ".join(cmd))
@@ -730,6 +731,7 @@ def check_C08(tier):
         if os.path.exists(cand):
             shutil.copyfile(cand, os.path.join(wsdir, "Cargo.lock"))
             break
+    guard_target(GEN_TARGET, wsdir, REPO_PACKAGES)
     cmd = ["cargo", "build", "--offline", "--workspace", "--target-dir", GEN_TARGET, "-j", "14"]
     p = subprocess.run(cmd, cwd=wsdir, env=cargo_env(), stdout=subprocess.PIPE, stderr=subprocess.PIPE, text=True)
     res.cmds.append(" ".join(cmd))
